@@ -308,9 +308,9 @@ func c15Check(c c15Case) (v vcase.Verdict) {
 
 func c15Gen(t *rapid.T) c15Case {
 	return c15Case{
-		Stat: genStatCase(t),
-		Perm: rapid.SliceOfN(rapid.IntRange(0, 1000), 12, 12).Draw(t, "perm"),
-		Reps: vcase.Scale(6, 24),
+		Stat:            genStatCase(t),
+		Perm:            rapid.SliceOfN(rapid.IntRange(0, 1000), 12, 12).Draw(t, "perm"),
+		Reps:            vcase.Scale(6, 24),
 		OtherAlpha:      rapid.SampledFrom([]float64{0.5, 1, 0.001, 0.2}).Draw(t, "otheralpha"),
 		OtherConfidence: rapid.SampledFrom([]float64{0.5, 0.99, 0.8, 0.993, 0.947, 0.903}).Draw(t, "otherconf"),
 		Fresh:           vcase.OneIn(t, 10, "fresh"),
